@@ -210,7 +210,7 @@ def run(pid, tier, seed):
     camp.extra["exhaustive_sequences_up_to_length"] = k
     camp.extra["exhaustive_sequence_count"] = len(seqs)
     camp.extra["exhaustive"] = False
-    return core.finish(pid, tier, seed, camp, RULE, t0, assumptions=[
+    return core.finish(pid, tier, seed, camp, RULE, t0, replay_fn=replay, assumptions=[
         "whether files listed after a fatally unparsable one are still analysed is not constrained",
         "directory discovery order is not assumed",
     ])
